@@ -1,5 +1,6 @@
 import Rivaas.Gen.Lifecycle
 import Rivaas.Model.LifecycleSkel
+import Rivaas.Model.LifecycleWhole
 /-
 C09 — the call order of `Start` / `StartTLS` / `StartMTLS` / `runServer` in the Go source, checked in the kernel.
 
@@ -24,5 +25,43 @@ theorem shutdown_sequence_obligation : (check skels).after = true := by decide
 
 /-- all obligations on the skeletons regenerated from the source of this run -/
 theorem lifecycle_skeleton_ok : (check skels).ok = true := by decide
+
+/-! ### the assembled program (`Model/LifecycleWhole.lean`) over the regenerated slices
+
+`Props/C09Whole.lean` proves for any slices that pass `checkWhole`: every execution of entry point → `runServer` →
+event loop (any schedule of arms, any number of iterations) → statements after the label ends in a `return` with a
+call word of the lifecycle language. These are its hypotheses, discharged on the source of this run. -/
+
+/-- every slice meets its obligation over the one vocabulary of the lifecycle language -/
+theorem whole_program_obligation : checkWhole skels = true := by decide
+
+/-- the paths the lifecycle model follows exist: prologue into `runServer`, the ready path, an arm that is exactly one
+    `Reload` and goes round again, an arm that leaves to the label, the shutdown sequence -/
+theorem model_paths_live : liveness skels = true := by decide
+
+/-- … and, enumerated: failed start, failed listen, served with 0, 1, 2 SIGHUP reloads -/
+theorem model_paths_present : modelPathsPresent skels 2 = true := by decide
+
+/-! ### shapes -/
+
+/-- the event loop waits on the server error, the reload signal and the lifecycle context, in this order; the only
+    `goto` target is the label right after the loop -/
+theorem loop_shape_obligation : loopShape.ok = true := by decide
+
+/-- which arm does what: the server-error arm aborts, the SIGHUP arm reloads and goes round again (it never leaves the
+    loop), the `ctx.Done()` arm leaves to the label -/
+theorem arm_roles_obligation :
+    skels.arms.map (armRole (nm loopShape.label)) = [.abort, .reload, .leave] ∧
+    afterLabel skels.after = nm loopShape.label := by decide
+
+/-- the hook executors loop the way the model's `startHooks` / `readyHooks` / `ranFrom` / `lifo` / `stopHooks` do -/
+theorem hook_loops_obligation : hookLoops = modelHookLoops := by decide
+
+/-- `Reload` = `reloadMu.Lock(); defer reloadMu.Unlock(); … executeReloadHooks …` (Model/ReloadMutex.lean) -/
+theorem reload_under_mutex_obligation : reloadShape = modelReloadShape := by decide
+
+/-- observability: what is started is what is shut down, no step skips the next, and the contexts of the shutdown
+    sequence and of `abortStartup` are detached from the (already cancelled) lifecycle context -/
+theorem observability_pairing_obligation : obsShape = modelObsShape := by decide
 
 end Rivaas.Tie.C09
